@@ -10,7 +10,8 @@ ALSO = {'C03-lock-only-around-batch': ['C10'], 'C13-lock-only-around-batch': ['C
         'C03-parse-policy-shared-operation-dict': ['C18'], 'C08-lock-only-around-batch': ['C10'],
         'C03-locate-filters-before-access-check': ['C14'],
         'C11-lock-only-around-process-batch': ['C10'],
-        'C05-locate-certificates-match-crypto-filters': ['C14']}
+        'C05-locate-certificates-match-crypto-filters': ['C14'],
+        'C19-mac-key-parameters-copied-from-encryption-key': ['C05']}
 what = sys.argv[1] if len(sys.argv) > 1 else 'all'
 rows = []
 def run(patch, prop):
